@@ -266,18 +266,19 @@ int32_t tls13FindSessionPsk(ssl_t *ssl,
     if (MATRIX_IS_SERVER(ssl))
     {
 #  if defined(USE_SERVER_SIDE_SSL) && defined(USE_STATELESS_SESSION_TICKETS)
-        psSessionTicketKeys_t *key;
+        psSessionTicketKeys_t keyCopy;
 
         if (idLen >= 16 + 12 + 16)
         {
-            key = ssl->keys->sessTickets;
-            while (key)
+            /* A copy taken under the list's lock: another session sharing
+               the keys may rotate them meanwhile. */
+            if (matrixCopySessionTicketKey(ssl->keys, id, &keyCopy)
+                    == PS_SUCCESS)
             {
-                if (!Memcmp(id, key->name, 16))
-                {
-                    return tls13DecryptTicket(ssl, key, id, idLen, pskOut);
-                }
-                key = key->next;
+                int32_t rc = tls13DecryptTicket(ssl, &keyCopy, id, idLen,
+                        pskOut);
+                memset_s(&keyCopy, sizeof(keyCopy), 0x0, sizeof(keyCopy));
+                return rc;
             }
         }
 #  endif
